@@ -1307,6 +1307,14 @@ func runC13(c *fw.Ctx) {
 		c13Replay(c)
 		return
 	}
+	// the real code at and beyond the hypotheses of the totality theorems (sub-check C13B)
+	defer func() {
+		if bnd := fw.Lookup("C13B"); bnd != nil {
+			rule := c.Res.Rule
+			bnd(c)
+			c.Res.Rule = rule + " PLUS (C13B): " + c.Res.Rule
+		}
+	}()
 	var ops, outs []string
 	r := c.Rng
 	nChains := c.Budget(36, 600)
